@@ -164,3 +164,42 @@ fn c03_first_last_stop_early() {
     core::mem::forget(it);
     core::mem::forget(lt);
 }
+
+//@ tier: thorough
+//@ inst: f = counting source of <= 6 items (u8; values >= 0x80 are errors), V = MV
+//@ funcs: funs::limit! (run instance), funs::while_gtz!
+//@ bounds: every count $n in isize; every stream of 0..=6 items, each an output or an error; 8 pulls of the result; unwind 9
+//@ assume: none
+//@ asserts: as c03_limit_pulls_once_per_output, with twice the stream length
+//@ timeout: 2400
+#[kani::proof]
+#[kani::unwind(9)]
+fn c03_limit_pulls_once_per_output_6() {
+    let n: isize = kani::any();
+    let s = Src::any_exact(6);
+    let (given, calls, len, items) = (s.given_handle(), s.calls_handle(), s.len(), s.items());
+    let cv = (FakeVars { f: Some(FakeF(s)), n: MV::Int(n) }, MV::Null);
+    let mut it = real_limit()(cv);
+    let want = if n <= 0 { 0 } else if (n as usize) < len { n as usize } else { len };
+    let mut k = 0;
+    while k < 8 {
+        let o = it.next();
+        if k < want {
+            assert!(same_item(&o, items[k]));
+            assert!(given.get() == k + 1);
+            assert!(calls.get() == k + 1);
+        } else {
+            assert!(o.is_none());
+            assert!(given.get() == want);
+            if n <= 0 || (n as usize) <= len {
+                assert!(calls.get() == want);
+            }
+        }
+        core::mem::forget(o);
+        k += 1;
+    }
+    kani::cover!(n == 5 && len == 6);
+    kani::cover!(n == 6 && len == 4);
+    kani::cover!(n < 0 && len == 6);
+    core::mem::forget(it);
+}
